@@ -140,4 +140,8 @@ def tags_for(pid):
     if pid == 'C12':
         # every C12 harness contains a clear: the cleared collection has to be valid and to answer like a new one afterwards
         return ['C12:', 'C01:', 'C02:', 'C04:', 'C05:', 'C06:', 'C08:', 'C09:', 'C11:']
+    if pid in ('C01', 'C04', 'C05', 'C06', 'C08', 'C17'):
+        # the functional claims are stated over the abstraction of a VALID tree: each of these checks also discharges, in its own
+        # harnesses, that the operation re-establishes the representation invariant its reasoning relies on
+        return [pid + ':', 'C02:', 'C11:']
     return [pid + ':']
